@@ -94,6 +94,45 @@ def check(R):
                 if q.bb in after_guard and t.bb in prims.reach(ra, tuple(ra.succ[q.bb])):
                     stale.append(ra.where(q.bb))
             R.expect('P3', ra.fn, f'the free-space test for the push at line {t.line} is not followed by another push before it', not stale, 'fresh', f'another push at {stale} lies between the free() test and this push: the test is stale', ra.where(t.bb))
+        # "inconsistent length or flags are refused": a BEGINNING segment starts a new SDU only when the previous one is complete - the
+        # write rem_msg_len <- (the header's message length) is cut by rem_msg_len == 0.  (Otherwise a second length prefix lands in the
+        # middle of the first SDU's bytes and the two are handed up as one message.)
+        RML = 'rem_msg_len:' + S + 'RecvWindow'
+        starts = [i for i, j, st in ra.field_writes(RML) if st[1].get('op') == 'use' and not mentions(prims.sources(ra, st[1]['a'][0]), 'rem_msg_len')
+                  and any(c.endswith('BtpHdr::get_msg_len') for c in src_calls(prims.sources(ra, st[1]['a'][0])))]
+        R.floor('start of a new SDU (rem_msg_len <- hdr.get_msg_len()) in RecvWindow::accept_incoming', len(starts), 1)
+
+        def prev_complete():
+            e = set()
+            isr = lambda s_: mentions(s_, 'rem_msg_len')    # (tests that come after the write cannot cut the way to it)
+            zero = lambda s_: 0 in src_consts(s_)
+            for bb, te, fe in prims.cmp_guard_edges(ra, 'Eq', isr, zero):
+                e |= te
+            for bb, te, fe in prims.cmp_guard_edges(ra, 'Ne', isr, zero):
+                e |= fe
+            for bb, te, fe in prims.cmp_guard_edges(ra, 'Gt', isr, zero, symmetric=False):
+                e |= fe
+            if not e:
+                from facts import GuardMissing
+                raise GuardMissing(f'{ra.fn}: no test of rem_msg_len against 0')
+            return e
+        R.cut('P2', ra, 'start a new SDU (rem_msg_len <- the header\'s message length, push a new length prefix)', starts, 'the previous SDU is complete (rem_msg_len == 0)', prev_complete)
+        # "for every message length, every negotiated segment size": the receiver's "an SDU that fits in one segment must be final" test
+        # has to agree with how the sender segments - a segment carries mtu MINUS its header, so the test either accounts for the header
+        # length or compares with what this segment actually carries; comparing the bare SDU length with the mtu refuses the sender's own
+        # two-segment messages of mtu - header < length <= mtu
+        fits = []
+        for c in prims.compare_sites(ra, ops=('Le', 'Lt', 'Ge', 'Gt')):
+            sa_, sb_ = prims.sources(ra, c[3]), prims.sources(ra, c[4])
+            msg = lambda s_: any(x.endswith('BtpHdr::get_msg_len') for x in src_calls(s_)) and not mentions(s_, 'rem_msg_len')
+            cap = lambda s_: ('arg', 4) in s_ or any(x.endswith(('::len',)) for x in src_calls(s_))
+            if (msg(sa_) and cap(sb_)) or (msg(sb_) and cap(sa_)):
+                fits.append((c, sa_ | sb_))
+        R.floor('"fits in a single segment" comparison in RecvWindow::accept_incoming', len(fits), 1)
+        for c, ss in fits:
+            R.expect('P5', ra.fn, 'the single-segment test accounts for the segment header (as the sender\'s segmentation does)',
+                     any(x.endswith(('BtpHdr::len', 'slice::<impl [T]>::len')) for x in src_calls(ss)), 'msg_len + hdr.len() <= mtu (or msg_len <= payload.len())',
+                     'the SDU length is compared with the bare mtu: an SDU of mtu - header < length <= mtu, which the sender legitimately splits in two segments, is refused', ra.where(c[0]))
         ci = R.body(S + 'RecvWindow::check_data_integrity')
         seq = [t for t in ci.calls('core::num::<impl u8>::wrapping_add')] + [t for b in F.nested(ci.fn) for t in b.calls('core::num::<impl u8>::wrapping_add')]
         okseq = False
@@ -123,6 +162,18 @@ def check(R):
         subw = [i for i, j, s in sa.stmts() if s[1].get('op') == 'bin' and s[1].get('b') in ('Sub', 'SubWithOverflow') and mentions(prims.sources(sa, s[1]['a'][0]), 'window_size')]
         R.floor('window_size - unacknowledged in SendWindow::accept_incoming', len(subw), 1)
         R.cut('P2', sa, 'compute window_size - unacknowledged', subw, 'unacknowledged <= window_size', never_sent_cut)
+        # the number of unacknowledged segments is the DIRECTED distance last_sent - ack modulo 256 (a wrapping subtraction, in that order):
+        # a symmetric distance refuses a valid acknowledgement across the 255 -> 0 wrap and accepts one for a segment that was never sent
+        wsub = [t for t in sa.calls() if any(n in ('<core::num::wrapping::Wrapping<u8> as core::ops::arith::Sub>::sub', 'core::num::<impl u8>::wrapping_sub') for n in t.callee_names())]
+        ok_dir = False
+        for t in wsub:
+            a0 = prims.sources(sa, t.d['a'][0], through={'core::num::wrapping::Wrapping'})
+            a1 = prims.sources(sa, t.d['a'][1], through={'core::num::wrapping::Wrapping'})
+            if mentions(a0, 'last_sent_seq_num') and any(c.endswith('BtpHdr::get_ack') for c in src_calls(a1)) and not mentions(a1, 'last_sent_seq_num'):
+                ok_dir = True
+        other = sorted({n.split('::')[-1] for t in sa.calls() for n in t.callee_names() if n.endswith(('::abs_diff', '::max', '::min', '::checked_sub', '::saturating_sub'))})
+        R.expect('P10', sa.fn, 'unacknowledged = last_sent_seq_num - ack, wrapping (a directed distance modulo 256)', ok_dir and not other,
+                 'Wrapping(last_sent_seq_num) - Wrapping(ack)', f'{len(wsub)} wrapping subtraction(s) with the operands (last sent, acknowledged); other distance operators: {other}')
         pd = R.body(S + 'Session::process_rx_data')
         result_used(R, 'P8', pd, (S + 'SendWindow::accept_incoming',))
         result_used(R, 'P8', pd, (S + 'RecvWindow::accept_incoming',))
